@@ -113,10 +113,12 @@ GoodSet(node, hash, S, amt, deadline) ==
   /\ deadline > height
 RClaimable(node, hash, amt, deadline) ==
   LET key == <<node, hash>>
-      cand == {k \in DOMAIN rh : k[1] = node /\ rh[k].hash = hash /\ rh[k].st = "processed"}
-      S == CHOOSE T \in SUBSET cand : GoodSet(node, hash, T, amt, deadline)
-  IN /\ \E T \in SUBSET cand : GoodSet(node, hash, T, amt, deadline)
-     /\ key \in DOMAIN cs => Resolved(cs[key].set)
+      \* a set that lost a part to its fail-back height may be completed by a later part and shown again
+      again == IF key \in DOMAIN cs /\ cs[key].decision = "none" THEN {k \in cs[key].set : rh[k].st = "shown"} ELSE {}
+      cand == {k \in DOMAIN rh : k[1] = node /\ rh[k].hash = hash /\ rh[k].st = "processed"} \cup again
+      S == CHOOSE T \in SUBSET cand : again \subseteq T /\ GoodSet(node, hash, T, amt, deadline)
+  IN /\ \E T \in SUBSET cand : again \subseteq T /\ GoodSet(node, hash, T, amt, deadline)
+     /\ key \in DOMAIN cs => (Resolved(cs[key].set) \/ cs[key].decision = "none")
      /\ rh' = [k \in DOMAIN rh |-> IF k \in S THEN [rh[k] EXCEPT !.st = "shown"] ELSE rh[k]]
      /\ cs' = Put(cs, key, [set |-> S, amt |-> amt, deadline |-> deadline, decision |-> "none", at |-> -1, claimedEv |-> FALSE])
      /\ UNCHANGED <<reg, sent, height, now, ticks, par, initBal, credited, offered>>
